@@ -8,6 +8,7 @@ with enough bytes buffered, and it never assigns to the read buffer itself (only
 (R02.4) one framing site, no re-wrapping of the transport, the handshake's framed reader is the one that
 is moved into the socket. Does NOT decide equality of decoded sequences over all partitions."""
 from ..sym import Sym, show, walk_expr, PathExplosion
+from . import names
 from ..facts import callee_name
 from ..common import trait_impls, short, strip_casts, len_base, coroutine_of
 from ..pathq import default_inline
@@ -362,7 +363,7 @@ def check_framing_sites(f, rep):
         if co is None:
             rep.bad("R02.4", "R02.4|%s|coroutine" % ty, "async body not found (anchor-missing)", outer.loc())
             continue
-        parts = [(bb, t) for bb, t, fn in co.calls() if fn and fn["name"] == "into_parts" and "FramedIo" in fn["path"]]
+        parts = [(bb, t) for bb, t, fn in co.calls() if fn and fn["name"] == "into_parts" and names.of(f, "FramedIo") in fn["path"]]
         if not parts:
             rep.bad("R02.4", "R02.4|%s|into_parts" % ty, "FramedIo::into_parts not called (anchor-missing)", co.loc())
             continue
